@@ -1,9 +1,20 @@
 import EinoV.Oracle.C05GraphCase
+import EinoV.Oracle.C05Eager
 
 namespace EinoV.Oracle.C05
 open Lean EinoV
 
-/-- case: {"g": graph case (interrupt sets, state, rerun nodes), "input": "x", "maxCalls": n} -/
-def handle (c : Json) : JE Json := C05GraphCase.handle c
+/-- extra case families of this property, by the "kind" field of the case -/
+def handleKind (kind : String) (c : Json) : JE Json :=
+  match kind with
+  | "eager" => C05Eager.handle c
+  | _ => throw s!"unknown case kind {kind}"
+
+/-- case: {"g": graph case (interrupt sets, state, rerun nodes), "input": "x", "maxCalls": n}
+    (no "kind"), or a case of an extra family -/
+def handle (c : Json) : JE Json :=
+  match c.getObjVal? "kind" with
+  | .ok (.str k) => handleKind k c
+  | _ => C05GraphCase.handle c
 
 end EinoV.Oracle.C05
